@@ -8,7 +8,17 @@
 //	        its own result is printed, as <res>|~|~|<cap or ->|1.  For ArrayList Cap() is still
 //	        read (alone) because the model needs it as its growth oracle; for the other
 //	        implementations nothing at all is called between two unobserved operations.
-//	output: <res>|<len>|<nil>:<contents>|<cap>|<fresh>;...   one line per history, stops after a panic
+//	        b:<x>,.. = Append of ONE harness-owned slice to a second, transient list of the same
+//	        implementation and to the list under test; the transient list is then overwritten
+//	        through Set (for the model this is a plain Append)
+//	        n:<x>,.. (first op only) = construct with NewLinkedListOf / NewCopyOnWriteArrayListOf
+//	        (ArrayList: plain Append, NewArrayListOf is documented to share its argument)
+//	output: <res>|<len>|<nil>:<contents>|<cap>|<fresh>|<argok>;...   one line per history, stops after a panic
+//
+// Argument slices: every slice passed to Append / New...Of is owned by the harness, often has
+// spare capacity, and is overwritten (elements and spare capacity) right after the call, before
+// anything is observed; the last few are re-checked after every later operation: the list must
+// never write into them (argok=1).
 //
 // After EVERY operation the list is observed through Len(), AsSlice() and Cap().  Every slice
 // obtained from AsSlice is kept until the next operation: it must not have been changed by that
@@ -95,7 +105,7 @@ func errClass(err error) string {
 }
 
 // one operation; a run-time panic of the library is reported as "panic"
-func doOp(l list.List[int], op string) (res string) {
+func doOp(l list.List[int], op string, impl string, cap0 int, k int, tr *argTracker) (res string) {
 	defer func() {
 		if r := recover(); r != nil {
 			res = "panic"
@@ -109,16 +119,26 @@ func doOp(l list.List[int], op string) (res string) {
 			return errClass(err)
 		}
 		return "v:" + strconv.Itoa(v)
-	case "a":
-		var xs []int
-		if len(p) > 1 && p[1] != "" {
-			for _, s := range strings.Split(p[1], ",") {
-				xs = append(xs, atoi(s))
+	case "a", "b", "n":
+		xs := mkArg(p, k)
+		if p[0] == "b" {
+			// the same slice goes to a second list first; that list is then overwritten via Set
+			other := mk(impl, cap0)
+			if err := other.Append(xs...); err != nil {
+				return errClass(err)
 			}
-		}
-		if err := l.Append(xs...); err != nil {
+			if err := l.Append(xs...); err != nil {
+				return errClass(err)
+			}
+			for i := 0; i < other.Len(); i++ {
+				_ = other.Set(i, -4000000-i)
+			}
+			_ = other.Append(-4000000)
+			tr.setOther(other)
+		} else if err := l.Append(xs...); err != nil {
 			return errClass(err)
 		}
+		tr.scribbleArg(xs)
 		return "ok"
 	case "i":
 		if err := l.Add(atoi(p[1]), atoi(p[2])); err != nil {
@@ -164,6 +184,105 @@ func doOp(l list.List[int], op string) (res string) {
 	panic("op " + op)
 }
 
+// the argument of Append / New...Of: a harness-owned slice, with 0-3 elements of spare capacity
+func mkArg(p []string, k int) []int {
+	var vals []int
+	if len(p) > 1 && p[1] != "" {
+		for _, s := range strings.Split(p[1], ",") {
+			vals = append(vals, atoi(s))
+		}
+	}
+	xs := make([]int, len(vals), len(vals)+(len(vals)*7+k)%4)
+	copy(xs, vals)
+	return xs
+}
+
+type argRec struct{ full, want []int }
+
+// argTracker remembers the argument slices already handed to the list (overwritten by the
+// harness) and the transient second list of the last `b` op
+type argTracker struct {
+	recs      []argRec
+	other     list.List[int]
+	otherWant []int
+}
+
+// overwrite the argument (elements and spare capacity) and remember what it must keep holding
+func (t *argTracker) scribbleArg(xs []int) {
+	if cap(xs) > len(xs) {
+		_ = append(xs, -3000000) // the caller keeps appending to its own buffer
+	}
+	full := xs[:cap(xs)]
+	for i := range full {
+		full[i] = -3000000 - i
+	}
+	t.recs = append(t.recs, argRec{full, append([]int(nil), full...)})
+	if len(t.recs) > 4 {
+		t.recs = t.recs[1:]
+	}
+}
+
+func (t *argTracker) setOther(o list.List[int]) {
+	t.other, t.otherWant = o, nil
+}
+
+// ok reports whether no remembered argument slice and not the transient list has been changed
+// by the list under test
+func (t *argTracker) ok() (good bool) {
+	defer func() {
+		if r := recover(); r != nil {
+			good = false
+		}
+	}()
+	for _, r := range t.recs {
+		for i := range r.full {
+			if r.full[i] != r.want[i] {
+				return false
+			}
+		}
+	}
+	if t.other != nil {
+		cur := t.other.AsSlice()
+		if t.otherWant == nil {
+			t.otherWant = cur
+			for i, v := range cur { // what we wrote through Set / Append, nothing else
+				w := -4000000 - i
+				if i == len(cur)-1 {
+					w = -4000000
+				}
+				if v != w {
+					return false
+				}
+			}
+		} else {
+			if len(cur) != len(t.otherWant) {
+				return false
+			}
+			for i := range cur {
+				if cur[i] != t.otherWant[i] {
+					return false
+				}
+			}
+		}
+	}
+	return true
+}
+
+// mkOf builds the list with the New...Of constructor where that must copy its argument
+func mkOf(impl string, cap0 int, xs []int) list.List[int] {
+	switch {
+	case impl == "linked":
+		return list.NewLinkedListOf[int](xs)
+	case impl == "cow":
+		return list.NewCopyOnWriteArrayListOf[int](xs)
+	case strings.HasPrefix(impl, "conc-"):
+		return &list.ConcurrentList[int]{List: mkOf(impl[5:], cap0, xs)}
+	}
+	l := list.NewArrayList[int](cap0)
+	_ = l.Append(xs...)
+	return l
+}
+
 // overwrite every element, then write into the spare capacity (if any)
 func scribble(s []int) {
 	for i := range s {
@@ -201,6 +320,7 @@ func runHistory(impl string, cap0 int, ops []string) string {
 	l := mk(impl, cap0)
 	var held, heldCopy []int
 	var sb strings.Builder
+	tr := &argTracker{}
 	for k, op := range ops {
 		if at := strings.IndexByte(op, '@'); at >= 0 {
 			op = op[:at]
@@ -212,17 +332,33 @@ func runHistory(impl string, cap0 int, ops []string) string {
 		if strings.HasPrefix(op, "~") {
 			observed, op = false, op[1:]
 		}
-		res := doOp(l, op)
+		var res string
+		if k == 0 && strings.HasPrefix(op, "n:") {
+			res = func() (r string) {
+				defer func() {
+					if e := recover(); e != nil {
+						r = "panic"
+					}
+				}()
+				xs := mkArg(strings.Split(op, ":"), k)
+				l = mkOf(impl, cap0, xs)
+				tr.scribbleArg(xs)
+				return "ok"
+			}()
+		} else {
+			res = doOp(l, op, impl, cap0, k, tr)
+		}
 		if res == "panic" {
 			sb.WriteString("panic")
 			break
 		}
+		argok := b01(tr.ok())
 		if !observed {
 			c := "-"
 			if strings.HasSuffix(impl, "array") {
 				c = capOf(l)
 			}
-			sb.WriteString(res + "|~|~|" + c + "|1")
+			sb.WriteString(res + "|~|~|" + c + "|1|" + argok)
 			continue
 		}
 		fresh := true
@@ -235,7 +371,7 @@ func runHistory(impl string, cap0 int, ops []string) string {
 			scribble(held)
 		}
 		obs, s, ok := observe(l)
-		sb.WriteString(res + "|" + obs + "|" + capOf(l) + "|" + b01(fresh))
+		sb.WriteString(res + "|" + obs + "|" + capOf(l) + "|" + b01(fresh) + "|" + argok)
 		if !ok {
 			break
 		}
